@@ -21,12 +21,12 @@ def run(repo, chk):
                        'same remap options on both paths, inv(R) on the way in and R on the way out. Functions equal their reference forms.')
     chk.note_undecided('pixel equality of the fast and general paths', 'perpendicular normals, uniform advance along the arc (geometry values)')
     R = Rules(repo, chk)
-    refcheck.run_all(R, repo, chk, 'RECUR', 'crop_ref.py', WHAT, skip=('crop_init', 'lc_init'))
+    refcheck.run_all(R, repo, chk, 'RECUR', 'crop_ref.py', WHAT)
     G = [C + ':EngineLineCropper.get_crop_inputs']
     R.run('DOMAIN', domain, repo, Soft(chk), soft_for=G)
     R.run('GUARD', guard, repo, Soft(chk), soft_for=G + [C + ':EngineLineCropper.crop'])
     R.run('PAIR', pair, repo, Soft(chk), soft_for=G + [C + ':EngineLineCropper.fast_remap'])
-    chk.expect('RECUR', 6)
+    chk.expect('RECUR', 8)
     chk.expect('DOMAIN', 3)
     chk.expect('GUARD', 4)
     chk.expect('PAIR', 6)
